@@ -109,7 +109,7 @@ def expected : List (String × String × String × Nat × Expect) := [
   ("parser/lexer.go", "yyLex.readNumber", "panic:err", 6, .internalExplored),
   -- "Unparsed number"
   ("parser/lexer.go", "yyLex.readNumber", "panic:str", 1, .unreachable "lexer_total_no_internal"),
-  ("parser/lexer.go", "yyLex.readString", "call:SyntaxErrorf", 5, .errorChannel),
+  ("parser/lexer.go", "yyLex.readString", "call:SyntaxErrorf", 6, .errorChannel),
   -- "Bad string start"
   ("parser/lexer.go", "yyLex.readString", "panic:str", 1, .unreachable "lexer_total_no_internal"),
   ("parser/lexer.go", "yyLex.refill", "call:SyntaxErrorf", 1, .errorChannel),
